@@ -7,6 +7,12 @@
 //!   A  the client under test: WATCH .. MULTI .. body .. EXEC | DISCARD
 //!   B  the second client: set-up writes, writes between WATCH / MULTI / EXEC, value probes, final dump
 //!
+//! One scenario in six drives the EXECUTOR-level MULTI / EXEC / WATCH instead (CommandExecutor::execute with
+//! Command::Multi / Exec / Watch .., src/redis/executor/transaction_ops.rs - the path of the simulator and
+//! of every direct caller of execute()): one CommandExecutor, the "other client" being commands executed
+//! between WATCH and MULTI (inside MULTI everything is queued), virtual time set with set_time; same
+//! oracles; here the executor compares stored values, so keys of every type are in scope for T3.
+//!
 //! Every reply is printed for the model (Model/Conn.v over Model/MiniExec.v, Corr/C05.v).  Direct
 //! oracles on the implementation:
 //!   T1 every command queued inside MULTI is answered +QUEUED (or an error) and the keyspace dump taken
@@ -227,6 +233,35 @@ fn run(env: &Env, shards: usize, sends: &[SendPlan]) -> Ran {
     }
 }
 
+/// the same plan on ONE CommandExecutor: every write holds exactly one command, whoever "sends" it;
+/// a pause advances the virtual clock handed to set_time
+fn run_executor(sends: &[SendPlan]) -> Ran {
+    use redis_sim::redis::{Command, CommandExecutor, RespCodec, RespParser};
+    let r = catch_unwind(AssertUnwindSafe(|| {
+        let mut ex = CommandExecutor::new();
+        let mut clock = 0u64;
+        let mut replies = Vec::new();
+        for sp in sends {
+            if sp.conn == 2 {
+                clock += std::str::from_utf8(&sp.bytes).unwrap().parse::<u64>().unwrap();
+                replies.push(Vec::new());
+                continue;
+            }
+            let mut b = bytes::BytesMut::from(&sp.bytes[..]);
+            let v = RespCodec::parse(&mut b).expect("generated frames decode").expect("generated frames are complete");
+            let cmd = Command::from_resp_zero_copy(&v).expect("generated frames are commands");
+            ex.set_time(redis_sim::simulator::VirtualTime::from_millis(clock));
+            let reply = ex.execute(&cmd);
+            replies.push(RespParser::encode(&reply));
+        }
+        Ran::Ok(replies)
+    }));
+    match r {
+        Ok(x) => x,
+        Err(e) => Ran::Panic(e.downcast_ref::<String>().cloned().or_else(|| e.downcast_ref::<&str>().map(|s| s.to_string())).unwrap_or_default()),
+    }
+}
+
 /// one write per command
 fn singles(steps: &[(usize, Vec<u8>)]) -> Vec<SendPlan> {
     steps.iter().map(|s| SendPlan { conn: s.0, bytes: s.1.clone(), completes: if s.0 == 2 { 0 } else { 1 } }).collect()
@@ -349,6 +384,7 @@ enum Role {
 }
 
 struct Scenario {
+    executor_level: bool,
     steps: Vec<(usize, Vec<u8>, Role, String)>, // the commands, in the order they complete
     sends: Vec<SendPlan>,                       // how they travel: one write per command, or pipelined chunks
 }
@@ -564,7 +600,7 @@ fn gen_scenario(keys: &[Vec<u8>], rng: &mut Rng, out: &mut Out) -> Scenario {
         for _ in 0..nb {
             let k = if ttl { keys[1..].choose(rng).unwrap() } else { keys.choose(rng).unwrap() };
             let v = *VALS.choose(rng).unwrap();
-            let (label, frame, queued): (&str, Vec<u8>, bool) = match rng.gen_range(0..22) {
+            let (label, frame, queued): (&str, Vec<u8>, bool) = match rng.gen_range(0..25) {
                 0..=2 => ("set", enc(&[b"SET", k, v]), true),
                 3 => ("get", enc(&[b"GET", k]), true),
                 4..=5 => ("incr", enc(&[b"INCR", k]), true),
@@ -582,7 +618,9 @@ fn gen_scenario(keys: &[Vec<u8>], rng: &mut Rng, out: &mut Out) -> Scenario {
                 18 => ("nested-multi", enc(&[b"MULTI"]), false),
                 19 => ("watch-in-multi", enc(&[b"WATCH", k]), false),
                 20 => ("publish-stub", enc(&[b"PUBLISH", b"ch", v]), false),
-                _ => ("zadd", enc(&[b"ZADD", k, b"3", b"m3"]), true),
+                _ => {
+                    if ttl || rng.gen_bool(0.3) { ("zadd", enc(&[b"ZADD", k, b"3", b"m3"]), true) } else { let (l, f) = wide_cmd(keys, rng); (l, f, true) }
+                }
             };
             out.count(&format!("body:{}", label));
             if pipe > 0 {
@@ -637,7 +675,171 @@ fn gen_scenario(keys: &[Vec<u8>], rng: &mut Rng, out: &mut Out) -> Scenario {
         }
     }
     flush_singles(&mut sends, &steps, &mut covered);
-    Scenario { steps, sends }
+    Scenario { executor_level: false, steps, sends }
+}
+
+/// keyspace-wide and multi-key commands for transaction bodies
+fn wide_cmd(keys: &[Vec<u8>], rng: &mut Rng) -> (&'static str, Vec<u8>) {
+    let k = keys.choose(rng).unwrap();
+    let k2 = keys.choose(rng).unwrap();
+    let v = *VALS.choose(rng).unwrap();
+    match rng.gen_range(0..7) {
+        0 => ("flushall", enc(&[b"FLUSHALL"])),
+        1 => ("flushdb", enc(&[b"FLUSHDB"])),
+        2 | 3 => ("dbsize", enc(&[b"DBSIZE"])),
+        4 => ("mset", enc(&[b"MSET", k, v, k2, b"w2"])),
+        5 => ("mget", enc(&[b"MGET", k, k2])),
+        _ => ("del-multi", enc(&[b"DEL", k, k2])),
+    }
+}
+
+/// executor-level scenario: WATCH .. (foreign commands) .. MULTI .. body .. EXEC | DISCARD on one executor
+fn gen_exec_scenario(keys: &[Vec<u8>], rng: &mut Rng, out: &mut Out) -> Scenario {
+    let mut steps: Vec<Step> = Vec::new();
+    let nk = keys.len();
+    for k in keys {
+        let t = *TYS.choose(rng).unwrap();
+        out.count(&format!("x:setup:{:?}", t));
+        if let Some(f) = create(k, t, rng) {
+            steps.push((1, f, Role::Setup, format!("create {:?}", t)));
+        }
+    }
+    let ttl = rng.gen_range(0..6) == 0;
+    let ttl_px: &[u8] = if rng.gen_bool(0.75) { b"40" } else { b"60000" };
+    let ttl_pause_in_multi = rng.gen_bool(0.5);
+    if ttl {
+        out.count(&format!("x:ttl:px{}", String::from_utf8_lossy(ttl_px)));
+        steps.push((1, enc(&[b"DEL", &keys[0]]), Role::Setup, "ttl-setup".into()));
+        steps.push((1, enc(&[b"SET", &keys[0], b"ttl-value", b"PX", ttl_px]), Role::Setup, "set-px".into()));
+    }
+    let rounds = if ttl { 1 } else if rng.gen_bool(0.35) { 2 } else { 1 };
+    for _ in 0..rounds {
+        let mut watched: Vec<usize> = Vec::new();
+        let wr = |steps: &mut Vec<Step>, rng: &mut Rng, out: &mut Out, watched: &Vec<usize>| {
+            let i = if ttl { rng.gen_range(1..nk) } else if !watched.is_empty() && rng.gen_bool(0.7) { *watched.choose(rng).unwrap() } else { rng.gen_range(0..nk) };
+            let (l, fs) = modify(&keys[i], rng);
+            out.count(&format!("x:foreign_write:{}", l));
+            for f in fs {
+                steps.push((1, f, Role::Between, l.clone()));
+            }
+        };
+        let nwatch = if ttl { rng.gen_range(1..3) } else { match rng.gen_range(0..10) { 0..=1 => 0, 2..=5 => 1, 6..=8 => 2, _ => 3 } };
+        out.count(&format!("x:watch_commands:{}", nwatch));
+        for w in 0..nwatch {
+            let mut ks: Vec<usize> = match rng.gen_range(0..10) {
+                0..=5 => vec![rng.gen_range(0..nk)],
+                6..=8 => vec![rng.gen_range(0..nk), rng.gen_range(0..nk)],
+                _ => vec![rng.gen_range(0..nk), rng.gen_range(0..nk), rng.gen_range(0..nk)],
+            };
+            if !watched.is_empty() && rng.gen_bool(0.5) {
+                ks[0] = *watched.choose(rng).unwrap();
+            }
+            if ttl && w == 0 {
+                ks[0] = 0;
+            }
+            if ks.iter().any(|k| watched.contains(k)) {
+                out.count("x:watch:key_watched_again");
+            }
+            let mut distinct = ks.clone();
+            distinct.sort();
+            distinct.dedup();
+            for &i in &distinct {
+                for (j, p) in probes(&keys[i]).into_iter().enumerate() {
+                    steps.push((1, p, Role::ProbeW(i, j), "probe".into()));
+                }
+            }
+            let mut args: Vec<&[u8]> = vec![b"WATCH"];
+            for &i in &ks {
+                args.push(&keys[i]);
+            }
+            steps.push((0, enc(&args), Role::Watch(ks.clone()), "watch".into()));
+            for k in distinct {
+                if !watched.contains(&k) {
+                    watched.push(k);
+                }
+            }
+            if !ttl && rng.gen_range(0..8) == 0 {
+                steps.push((0, enc(&[b"UNWATCH"]), Role::After, "unwatch".into()));
+                watched.clear();
+                out.count("x:watch:unwatch");
+            }
+            for _ in 0..rng.gen_range(0..3) {
+                wr(&mut steps, rng, out, &watched);
+            }
+        }
+        if nwatch == 0 {
+            for _ in 0..rng.gen_range(0..2) {
+                wr(&mut steps, rng, out, &watched);
+            }
+        }
+        if ttl && !ttl_pause_in_multi {
+            steps.push((2, b"90".to_vec(), Role::Sleep(90), "time-passes".into()));
+        }
+        // nothing but time can change between MULTI and EXEC (every command is queued): the EXEC-time
+        // fingerprints are taken now; the deadline key's fingerprint is taken right after EXEC
+        for i in (if ttl { 1 } else { 0 })..nk {
+            for (j, p) in probes(&keys[i]).into_iter().enumerate() {
+                steps.push((1, p, Role::ProbeE(i, j), "probe".into()));
+            }
+        }
+        steps.push((0, enc(&[b"MULTI"]), Role::Multi, "multi".into()));
+        let nb = rng.gen_range(0..6);
+        out.count(&format!("x:body_commands:{}", nb));
+        for _ in 0..nb {
+            let k = if ttl { keys[1..].choose(rng).unwrap() } else { keys.choose(rng).unwrap() };
+            let v = *VALS.choose(rng).unwrap();
+            let (label, frame, queued): (&str, Vec<u8>, bool) = match rng.gen_range(0..22) {
+                0..=2 => ("set", enc(&[b"SET", k, v]), true),
+                3 => ("get", enc(&[b"GET", k]), true),
+                4..=5 => ("incr", enc(&[b"INCR", k]), true),
+                6 => ("append", enc(&[b"APPEND", k, v]), true),
+                7..=8 => ("lpush", enc(&[b"LPUSH", k, v]), true),
+                9 => ("del", enc(&[b"DEL", k]), true),
+                10 => ("hset", enc(&[b"HSET", k, b"f2", v]), true),
+                11 => ("sadd", enc(&[b"SADD", k, b"m2"]), true),
+                12 => ("lrange", enc(&[b"LRANGE", k, b"0", b"-1"]), true),
+                13 => ("unwatch-in-multi", enc(&[b"UNWATCH"]), true),
+                14 => ("ping", enc(&[b"PING"]), true),
+                15 => ("unknown-queued", enc(&[b"FOO", k]), true),
+                16 => ("nested-multi", enc(&[b"MULTI"]), false),
+                17 => ("watch-in-multi", enc(&[b"WATCH", k]), false),
+                18 => ("zadd", enc(&[b"ZADD", k, b"3", b"m3"]), true),
+                _ => {
+                    let (l, f) = if ttl { ("dbsize", enc(&[b"DBSIZE"])) } else { wide_cmd(keys, rng) };
+                    (l, f, true)
+                }
+            };
+            out.count(&format!("x:body:{}", label));
+            steps.push((0, frame, Role::Body(queued), label.into()));
+        }
+        if ttl && ttl_pause_in_multi {
+            steps.push((2, b"90".to_vec(), Role::Sleep(90), "time-passes".into()));
+        }
+        if rng.gen_range(0..7) == 0 {
+            steps.push((0, enc(&[b"DISCARD"]), Role::Discard, "discard".into()));
+        } else {
+            steps.push((0, enc(&[b"EXEC"]), Role::Exec, "exec".into()));
+        }
+        if ttl {
+            for (j, p) in probes(&keys[0]).into_iter().enumerate() {
+                steps.push((1, p, Role::ProbeE(0, j), "probe-after-exec".into()));
+            }
+        }
+        if rng.gen_bool(0.3) {
+            let k = keys.choose(rng).unwrap();
+            let f = match rng.gen_range(0..3) { 0 => enc(&[b"EXEC"]), 1 => enc(&[b"INCR", k]), _ => enc(&[b"DISCARD"]) };
+            steps.push((0, f, Role::After, "after".into()));
+        }
+    }
+    for i in 0..nk {
+        for (j, p) in probes(&keys[i]).into_iter().enumerate() {
+            steps.push((1, p, Role::Dump(i, j), "dump".into()));
+        }
+    }
+    let mut sends = Vec::new();
+    let mut covered = 0;
+    flush_singles(&mut sends, &steps, &mut covered);
+    Scenario { executor_level: true, steps, sends }
 }
 
 fn main() {
@@ -658,10 +860,13 @@ fn main() {
             }
         }
         let mut rng = case_rng(args.seed, i);
-        let shards = if rng.gen_bool(0.5) { 1 } else { 4 };
+        let shards = *[1usize, 1, 4, 4, 16].choose(&mut rng).unwrap();
+        let xl = i % 6 == 4; // executor-level scenario
         out.count(&format!("shards:{}", shards));
-        let sc = gen_scenario(&keys, &mut rng, &mut out);
-        let got = run(&env, shards, &sc.sends);
+        let sc = if xl { gen_exec_scenario(&keys, &mut rng, &mut out) } else { gen_scenario(&keys, &mut rng, &mut out) };
+        out.count(if xl { "level:executor (CommandExecutor)" } else { "level:connection handler" });
+        let runner = |sends: &[SendPlan]| if sc.executor_level { run_executor(sends) } else { run(&env, shards, sends) };
+        let got = runner(&sc.sends);
         out.impl_checks += 1;
         let descr = |replies: &[Vec<u8>]| -> Vec<String> {
             sc.steps.iter().enumerate().filter(|(_, s)| !matches!(s.2, Role::DumpBefore(..) | Role::Dump(..) | Role::ProbeW(..) | Role::ProbeE(..))).map(|(j, s)| format!("{} {:?} -> {:?}", if s.0 == 0 { "A" } else if s.0 == 1 { "B" } else { "pause ms" }, String::from_utf8_lossy(&s.1), replies.get(j).map(|r| String::from_utf8_lossy(r).to_string()))).collect()
@@ -670,7 +875,7 @@ fn main() {
             Ran::Ok(r) => r,
             other => {
                 out.violation(i, "the connection handler panicked or hung during a transaction scenario", json!({"result": format!("{:?}", other), "steps": descr(&[])}));
-                let term = "(KTx [] [] [] true)".to_string();
+                let term = format!("({} [] [] [] true)", if xl { "KXTx" } else { "KTx" });
                 out.case(i, term, false, "");
                 continue;
             }
@@ -689,7 +894,7 @@ fn main() {
         // (1, i) = A writes tbl[i]; (0, i) = B writes tbl[i]; (2, ms) = a pause
         let step_ix: Vec<(usize, usize)> = sc.sends.iter().map(|sp| if sp.conn == 2 { (2, std::str::from_utf8(&sp.bytes).unwrap().parse().unwrap()) } else { (if sp.conn == 0 { 1 } else { 0 }, ix(&sp.bytes, &mut tbl)) }).collect();
         let reply_ix: Vec<usize> = answered.iter().map(|r| ix(r, &mut tbl)).collect();
-        let term = format!("(KTx {} {} {} false)", clist(tbl.iter(), |b| chex(b)), clist(step_ix.iter(), |s| format!("({}, {})", s.0, s.1)), clist(reply_ix.iter(), |r| r.to_string()));
+        let term = format!("({} {} {} {} false)", if xl { "KXTx" } else { "KTx" }, clist(tbl.iter(), |b| chex(b)), clist(step_ix.iter(), |s| format!("({}, {})", s.0, s.1)), clist(reply_ix.iter(), |r| r.to_string()));
         let canon = format!("{}{}", shards, sc.sends.iter().zip(answered.iter()).map(|(s, r)| format!("{}{}{}", s.conn, hex(&s.bytes), hex(r))).collect::<String>());
         let replies = match per_command(&sc.sends, &answered) {
             Some(r) => r,
@@ -838,13 +1043,14 @@ fn main() {
                             }
                         }
                         let expect_nil = !changed_keys.is_empty();
-                        let is_nil = r == b"*-1\r\n";
+                        // the executor answers a failed WATCH with a nil bulk, the connection handler with a nil array
+                        let is_nil = r == b"*-1\r\n" || (xl && r == b"$-1\r\n");
                         let is_arr = array_elems(r).is_some();
                         if !is_nil && !is_arr {
                             out.violation(i, "EXEC answered neither nil nor an array", json!({"steps": descr(&replies)}));
                         }
                         if expect_nil && !is_nil {
-                            if changed_keys.iter().all(|c| c.1) {
+                            if !xl && changed_keys.iter().all(|c| c.1) {
                                 out.known("C05-watch-nonstring", i, json!({"watched_changed_keys": changed_keys.iter().map(|c| String::from_utf8_lossy(&keys[c.0]).to_string()).collect::<Vec<_>>(), "steps": descr(&replies)}));
                             } else {
                                 out.violation(i, "T3: the value of a watched key changed between WATCH and EXEC but EXEC applied the transaction", json!({"changed": format!("{:?}", changed_keys), "steps": descr(&replies)}));
@@ -881,7 +1087,7 @@ fn main() {
         }
         // T2: the twin
         let ndump = sc.steps.iter().filter(|s| matches!(s.2, Role::Dump(..))).count();
-        match run(&env, shards, &singles(&twin)) {
+        match runner(&singles(&twin)) {
             Ran::Ok(tr) => {
                 out.impl_checks += 1;
                 for (idx, want) in &twin_expect {
